@@ -14,6 +14,7 @@ def run(ctx):
     ctx.translate(COMPONENTS)
     ctx.prove('props/C18.v')
     L.lockstep(ctx, [L.mon_c18])
+    L.reg_sweep(ctx, L.REG_KINDS['C18'])
     ctx.coverage['rule'] = ('lock-step scenarios incl. 2-3 concurrent mutators with deliveries; after each schedule every unfinished activity is stepped '
                             'round-robin: monitor = an activity that never returns / rounds without progress (deadlock, livelock)')
 
@@ -21,6 +22,8 @@ def run(ctx):
 def replay(ctx, path):
     case = json.load(open(path))
     sc = case.get('case', {}).get('scenario')
+    if case.get('case', {}).get('reg_sweep'):
+        return L.reg_replay(ctx, case['case'], L.REG_KINDS['C18'])
     if not sc:
         print(json.dumps(case, indent=1)[:3000])
         return 1
